@@ -165,6 +165,14 @@ func (m *monitor) handovers(c encCase, fm, label string, pt []byte, recips []age
 	// schedule (end of input in a separate call, together with the last
 	// bytes, one byte at a time, through a bufio.Reader ...)
 	for _, sc := range mon.Schedules() {
+		// quick tier: sources that trickle (one Read per 1..7 bytes) go with
+		// every chunk-multiple length and with lengths up to 70 000 only
+		if !r.Thorough() && c.length > 70000 && c.length%chunk != 0 {
+			switch sc.Name {
+			case "1byte", "1byte+eof", "7", "bufio16over1byte":
+				continue
+			}
+		}
 		hows := []string{howCopy}
 		switch sc.Name {
 		case "whole", "whole+eof", "1byte+eof", "random":
